@@ -97,16 +97,16 @@ def fill_code(k, su, members):
         if kind in ("s", "b"): sets.append("p->m%d = seed * 31 + %d;" % (i, 7 * i + 1))
         elif kind == "f": sets.append("p->m%d = seed * 0.5 + %d;" % (i, i + 1))
         elif kind == "a": sets.append("for (int j = 0; j < (int) (sizeof p->m%d / sizeof p->m%d[0]); j++) p->m%d[j] = seed + j + %d;" % (i, i, i, i))
-        elif kind == "n": sets.append(("p->m%d.c = seed + %d;" % (i, i)) if m == 19 else ("p->m%d.l = seed * 1000003L + %d; p->m%d.d = seed + 0.25;" % (i, i, i)))
-        elif kind == "an": sets.append(("p->ai%d = seed * 77 + %d;" % (i, i)) if m == 21 else ("p->ac%d = seed + %d; p->as%d = seed * 3 + 1;" % (i, i, i)))
+        elif kind == "n": sets.append(("p->m%d.c = seed + %d;" % (i, i)) if "char c;" in M[m][0] else ("p->m%d.l = seed * 1000003L + %d; p->m%d.d = seed + 0.25;" % (i, i, i)))
+        elif kind == "an": sets.append(("p->ai%d = seed * 77 + %d;" % (i, i)) if "union" in M[m][0] else ("p->ac%d = seed + %d; p->as%d = seed * 3 + 1;" % (i, i, i)))
         if su == "union" and kind != "z": break  # a union holds one member: the first named one
     cmps = []
     for i, m in enumerate(members):
         kind = M[m][1]
         if kind in ("s", "b", "f"): cmps.append("bad += p->m%d != q.m%d;" % (i, i))
         elif kind == "a": cmps.append("bad += memcmp (p->m%d, q.m%d, sizeof q.m%d) != 0;" % (i, i, i))
-        elif kind == "n": cmps.append(("bad += p->m%d.c != q.m%d.c;" % (i, i)) if m == 19 else ("bad += p->m%d.l != q.m%d.l || p->m%d.d != q.m%d.d;" % (i, i, i, i)))
-        elif kind == "an": cmps.append(("bad += p->ai%d != q.ai%d;" % (i, i)) if m == 21 else ("bad += p->ac%d != q.ac%d || p->as%d != q.as%d;" % (i, i, i, i)))
+        elif kind == "n": cmps.append(("bad += p->m%d.c != q.m%d.c;" % (i, i)) if "char c;" in M[m][0] else ("bad += p->m%d.l != q.m%d.l || p->m%d.d != q.m%d.d;" % (i, i, i, i)))
+        elif kind == "an": cmps.append(("bad += p->ai%d != q.ai%d;" % (i, i)) if "union" in M[m][0] else ("bad += p->ac%d != q.ac%d || p->as%d != q.as%d;" % (i, i, i, i)))
         if su == "union" and kind != "z": break
     T = "%s T%d" % (su, k)
     return ("static void fill%d (%s *p, int seed) { memset (p, 0, sizeof *p); %s }\n"
@@ -115,7 +115,11 @@ def fill_code(k, su, members):
 
 VARIANTS = [("first", "", ""), ("after5i", "long a1, long a2, long a3, long a4, long a5, ", "1, 2, 3, 4, 5, "), ("after6i", "long a1, long a2, long a3, long a4, long a5, long a6, ", "1, 2, 3, 4, 5, 6, "),
             ("after7d", "double d1, double d2, double d3, double d4, double d5, double d6, double d7, ", "1., 2., 3., 4., 5., 6., 7., "),
-            ("after8d", "double d1, double d2, double d3, double d4, double d5, double d6, double d7, double d8, ", "1., 2., 3., 4., 5., 6., 7., 8., ")]
+            ("after8d", "double d1, double d2, double d3, double d4, double d5, double d6, double d7, double d8, ", "1., 2., 3., 4., 5., 6., 7., 8., "),
+            # more scalars than registers of one kind: an aggregate that only needs the other kind still goes to registers
+            ("after8i", "long a1, long a2, long a3, long a4, long a5, long a6, long a7, long a8, ", "1, 2, 3, 4, 5, 6, 7, 8, "),
+            ("after10d", "double d1, double d2, double d3, double d4, double d5, double d6, double d7, double d8, double d9, double d10, ", "1., 2., 3., 4., 5., 6., 7., 8., 9., 10., "),
+            ("after4i6d", "long a1, double d1, long a2, double d2, long a3, double d3, long a4, double d4, double d5, double d6, ", "1, 1., 2, 2., 3, 3., 4, 4., 5., 6., ")]
 
 
 def pass_sources(types, base):
@@ -242,7 +246,7 @@ def run(tier):
                 rep.add_fail("C08 passing engine=%s type=%s position=%s" % (eng, describe(su, members), key.split()[1]), "passing-differs", line)
     rep.coverage = dict(evaluations=nlayout + npass, distinct_nontrivial=nlayout,
                         rule="layout: every struct and union declaration with 1..%d members over a 30-member alphabet (scalars, arrays, bit-fields of widths 1,3,5,7,8,9,16,24,31,32,33,56,64 incl. three zero-width forms, nested and anonymous aggregates): sizeof, _Alignof, offsetof of every addressable member and the byte image of every bit-field set to all ones, "
-                             "c2m -ei output against the gcc-built program; passing: every such type of size <= 32 returned from gcc code, passed to gcc code as first argument / after 5 or 6 integer / after 7 or 8 double arguments, and passed to and returned from a c2mir callback called by gcc code, under c2m -ei and -eg" % (3 if thorough else 2),
+                             "c2m -ei output against the gcc-built program; passing: every such type of size <= 32 returned from gcc code, passed to gcc code as first argument / after 5, 6 or 8 integer / after 7, 8 or 10 double / after 4 integer and 6 double arguments, and passed to and returned from a c2mir callback called by gcc code, under c2m -ei and -eg" % (3 if thorough else 2),
                         layout_types=nlayout, passing_checks=npass, samples=[describe(*t) for t in types[::max(1, len(types) // 5)]][:5], exhaustive=True)
     rep.assumptions = ["gcc on this machine is the platform ABI reference", "#pragma pack / attributes are not supported by c2mir and not generated"]
     return rep.finish()
